@@ -111,6 +111,20 @@ def gen_cases(tier, rng):
                      % (A.hx(env), A.hx('in file'), A.hx('my name')))
         env = '%s--name=my name%s' % (q, q)
         cases.append('H:f=32 arg:name:s0: arg:i:i0: env:%s argv:2d69,37 exp:i0=7;s0=s%s kind:sources' % (A.hx(env), A.hx('my name')))
+    # "#" starts a comment in an argument FILE line only: in the environment variable and on the command line a word
+    # that begins with "#" is a value like any other
+    for first in ('#42', '#', '#tag -x'):
+        w0 = first.split(' ')[0]
+        cases.append('H:f=32 arg:-:s0: arg:i:i0: arg:n:s1: env:%s argv:- exp:i0=5;s0=s%s;s1=s%s kind:sources'
+                     % (A.hx(w0 + ' -i 5 -n abc'), A.hx(w0), A.hx('abc')))
+        cases.append('H:f=0 arg:-:s0: arg:i:i0: arg:n:s1: %s exp:i0=5;s0=s%s;s1=s%s kind:sources'
+                     % (A.argv_tok([w0, '-i', '5', '-n', 'abc']), A.hx(w0), A.hx('abc')))
+        cases.append('H:f=32 arg:v:vs0:multi arg:i:i0: env:%s %s exp:i0=5;vs0=[s%s,s%s] kind:sources'
+                     % (A.hx('-i 5'), A.argv_tok(['-v', 'a', w0]), A.hx('a'), A.hx(w0)))
+        cases.append('H:f=32 arg:v:vs0:multi arg:i:i0: env:%s %s exp:i0=5;vs0=[s%s,s%s] kind:sources'
+                     % (A.hx('-v a ' + w0), A.argv_tok(['-i', '5']), A.hx('a'), A.hx(w0)))
+    cases.append('H:f=48 arg:-:s0: arg:i:i0: file:%s env:%s argv:- exp:i0=5;s0=s%s kind:sources'
+                 % (A.hx('# a comment\n-i 5\n'), A.hx('#x'), A.hx('#x')))
     # the separate values of a multi-value argument continue across the delivery boundaries (file line / file line,
     # file / environment, environment / command line, named file / rest of the line)
     mv = 'arg:v,values:vi0:multi arg:f:b0:init=0 '
